@@ -49,7 +49,16 @@ Inductive faction := FaAlways | FaDefault | FaError | FaIgnore | FaOnce | FaModu
 Inductive fop := FSimple (a : faction) | FWarn.        (* statements of helper_methods._raise_warning *)
 Inductive wevent := EvPrint | EvWarn (c : wcat) | EvCount (n : Z).
 
-Record wst := { ws_log : list wevent; ws_cnt : Z; ws_filter : faction; ws_warned : bool }.
+(* ws_cnt: the num_calls attribute of every count_calls wrapper object, by wrapper identity *)
+Record wst := { ws_log : list wevent; ws_cnt : list (nat * Z); ws_filter : faction; ws_warned : bool }.
+
+Fixpoint cnt_get (id : nat) (l : list (nat * Z)) : Z :=
+  match l with [] => 0%Z | (i, z) :: l' => if Nat.eqb i id then z else cnt_get id l' end.
+Fixpoint cnt_set (id : nat) (z : Z) (l : list (nat * Z)) : list (nat * Z) :=
+  match l with
+  | [] => [(id, z)]
+  | (i, z') :: l' => if Nat.eqb i id then (i, z) :: l' else (i, z') :: cnt_set id z l'
+  end.
 
 Record st (Sigma : Type) := { cs : Sigma; ws : wst }.
 Arguments cs {Sigma} _.
@@ -189,6 +198,7 @@ Section Exec.
     cx_vne : val -> val -> bool;                       (* a != b, arbitrary *)
     cx_assert_kw : args -> kwargs -> option exn;       (* DecoratedFunction(...); FunctionCall(...).assert_uses_kwargs() *)
     cx_warn_prog : list fop;                           (* body of _raise_warning *)
+    cx_self : nat;                                     (* identity of the wrapper object created by this decoration *)
   }.
 
   Variable cx : ctx.
@@ -270,8 +280,9 @@ Section Exec.
     | WPrint => (FNext en, set_ws s (log_ev EvPrint (ws s)))
     | WCount k =>
       let w := ws s in
-      let n := (ws_cnt w + k)%Z in
-      (FNext en, set_ws s {| ws_log := ws_log w ++ [EvCount n]; ws_cnt := n; ws_filter := ws_filter w; ws_warned := ws_warned w |})
+      let n := (cnt_get (cx_self cx) (ws_cnt w) + k)%Z in
+      (FNext en, set_ws s {| ws_log := ws_log w ++ [EvCount n]; ws_cnt := cnt_set (cx_self cx) n (ws_cnt w);
+                             ws_filter := ws_filter w; ws_warned := ws_warned w |})
     | WWarn cat =>
       match run_fops cat (cx_warn_prog cx) (ws s) with
       | (None, w') => (FNext en, set_ws s w')
@@ -360,7 +371,8 @@ Arguments cx_veq {Sigma} _.
 Arguments cx_vne {Sigma} _.
 Arguments cx_assert_kw {Sigma} _.
 Arguments cx_warn_prog {Sigma} _.
-Arguments Build_ctx {Sigma} _ _ _ _ _ _ _.
+Arguments cx_self {Sigma} _.
+Arguments Build_ctx {Sigma} _ _ _ _ _ _ _ _.
 Arguments exec {Sigma} _ _ _ _ _ _ _.
 Arguments run_body {Sigma} _ _ _ _ _.
 Arguments do_call {Sigma} _ _ _ _ _ _.
@@ -450,7 +462,7 @@ Section Use.
   Definition with_callee (cx : ctx Sigma) (f : cdesc Sigma) : ctx Sigma :=
     {| cx_callee := fun c => match c with CFunc => f | COther => cx_callee cx COther end;
        cx_param := cx_param cx; cx_rename := cx_rename cx; cx_veq := cx_veq cx; cx_vne := cx_vne cx;
-       cx_assert_kw := cx_assert_kw cx; cx_warn_prog := cx_warn_prog cx |}.
+       cx_assert_kw := cx_assert_kw cx; cx_warn_prog := cx_warn_prog cx; cx_self := cx_self cx |}.
 
   (* d1 applied to (d2 applied to f) *)
   Definition use_stacked (d1 : deco) (cx1 : ctx Sigma) (d2 : deco) (cx2 : ctx Sigma) : csem Sigma :=
